@@ -73,6 +73,9 @@ type Cfg struct {
 	MemberBias                                                        int  // 0 any membership operation, 1 mostly non-voting adds, 2 mostly witness adds
 	ClientRate                                                        int  // relative rate of client actions (10 = as likely as 1/8 of pending work)
 	Pad                                                               int
+	PStall                                                            int // per mille chance per step that a host is frozen (VM pause, long GC): none of its tasks, ticks or deliveries happen for a while
+	StallLen                                                          int // longest stall, in steps
+	TickSkew                                                          int // 1: hosts tick at different rates (drawn per host: 1x .. 8x)
 }
 
 // Host is one simulated machine.
@@ -122,6 +125,9 @@ type Sim struct {
 	seqno              int64 // global event sequence number (history stamps)
 	ticks              int64
 	faultsOn           bool
+	now                int   // steps executed (stall clock)
+	stallUntil         []int // per host: frozen while now < stallUntil
+	tickWeight         []int // per host: relative tick rate (clock skew)
 	pendingAsync       []asyncJob
 	admin              []*adminReq
 	orc                *oracles
@@ -204,6 +210,9 @@ func drawCfg(ctx *runner.Ctx) Cfg {
 	c.PartialHeal = p("partialheal", pick(s, 0, 30, 60))
 	c.EngYield = p("engyield", pick(s, 0, 0, 150, 400))
 	c.Pad = p("pad", pick(s, 0, 0, 40, 300))
+	c.PStall = p("pstall", pick(s, 0, 0, 0, 1, 3))
+	c.StallLen = p("stalllen", pick(s, 60, 20, 200, 600))
+	c.TickSkew = p("tickskew", pick(s, 0, 0, 1))
 	if c.Hosts < 1 {
 		c.Hosts = 1
 	}
@@ -550,7 +559,23 @@ func newSim(ctx *runner.Ctx, tweak func(c *Cfg)) *Sim {
 	for i := 0; i < s.cfg.Clients; i++ {
 		s.clients = append(s.clients, &Client{id: i, sim: s})
 	}
+	s.stallUntil = make([]int, s.cfg.Hosts)
+	s.tickWeight = make([]int, s.cfg.Hosts)
+	for i := range s.tickWeight {
+		s.tickWeight[i] = 1
+		if s.cfg.TickSkew > 0 {
+			s.tickWeight[i] = pick(s.src, 2, 1, 4, 8, 16)
+		}
+	}
 	return s
+}
+
+// stalled reports whether the host is frozen by a stall fault: its parked
+// tasks are not resumed, its workers get no events, it does not tick and
+// nothing is delivered to it (the frames wait in their lanes) - then it
+// carries on exactly where it was.
+func (s *Sim) stalled(id int) bool {
+	return s.faultsOn && id >= 0 && id < len(s.stallUntil) && s.now < s.stallUntil[id]
 }
 
 func (s *Sim) bootAll() {
@@ -760,12 +785,12 @@ type option struct {
 func (s *Sim) options(tickers bool) []option {
 	var opts []option
 	for _, t := range s.ex.Live() {
-		if t.State() == coro.Parked && !t.Dead {
+		if t.State() == coro.Parked && !t.Dead && !s.stalled(t.Host) {
 			opts = append(opts, option{kind: 0, task: t})
 		}
 	}
 	for _, h := range s.hosts {
-		if !h.up {
+		if !h.up || s.stalled(h.id) {
 			continue
 		}
 		for _, ev := range h.drv.Enabled(tickers) {
@@ -776,7 +801,7 @@ func (s *Sim) options(tickers bool) []option {
 	}
 	for i, j := range s.pendingAsync {
 		h := s.hosts[j.host]
-		if h.up && h.inc == j.inc {
+		if h.up && h.inc == j.inc && !s.stalled(h.id) {
 			opts = append(opts, option{kind: 4, host: h, idx: i})
 		}
 	}
@@ -784,6 +809,9 @@ func (s *Sim) options(tickers bool) []option {
 		// one connection = one reader: the next frame of a lane is handled only
 		// after the previous one has been handled completely
 		if to := s.hosts[k.to]; to.up && to.busy != nil && to.busy[laneOwner(k)] != nil {
+			continue
+		}
+		if s.stalled(k.to) {
 			continue
 		}
 		if s.cfg.HoldCut && !k.chunk && s.net.cut[k.from][k.to] && len(s.net.lanes[k].frames) < 300 {
@@ -812,6 +840,7 @@ func (s *Sim) upHosts() []*Host {
 }
 
 func (s *Sim) oneStep() {
+	s.now++
 	if s.faultsOn {
 		s.maybeFaults()
 	}
@@ -825,6 +854,15 @@ func (s *Sim) oneStep() {
 		}
 	}
 	ups := s.upHosts()
+	if s.cfg.PStall > 0 {
+		var awake []*Host
+		for _, h := range ups {
+			if !s.stalled(h.id) {
+				awake = append(awake, h)
+			}
+		}
+		ups = awake
+	}
 	// categories: 0 = pending work (benign), 1 = tick, 2 = client
 	w := []int{0, 0, 0}
 	if len(work) > 0 {
@@ -849,7 +887,15 @@ func (s *Sim) oneStep() {
 	case 0:
 		s.execOption(work[s.src.Intn(len(work))])
 	case 1:
-		s.tickHost(ups[s.src.Intn(len(ups))])
+		if s.cfg.TickSkew > 0 {
+			w := make([]int, len(ups))
+			for i, h := range ups {
+				w[i] = s.tickWeight[h.id]
+			}
+			s.tickHost(ups[s.src.Weighted(w)])
+		} else {
+			s.tickHost(ups[s.src.Intn(len(ups))])
+		}
 	case 2:
 		s.execOption(cl[s.src.Intn(len(cl))])
 	}
@@ -978,6 +1024,26 @@ func (s *Sim) maybeFaults() {
 			i := 1 + src.Intn(len(l.frames)-1)
 			s.ctx.Count("fault.reorder", 1)
 			s.deliver(k, i)
+		}
+	}
+	if c.PStall > 0 && !s.importMode && src.Chance(c.PStall, 1000) {
+		var cand []*Host
+		for _, h := range s.upHosts() {
+			if !s.stalled(h.id) {
+				cand = append(cand, h)
+			}
+		}
+		if len(cand) > 0 {
+			h := cand[src.Intn(len(cand))]
+			s.stallUntil[h.id] = s.now + 1 + src.Intn(c.StallLen)
+			s.ctx.Count("fault.stall", 1)
+			s.ctx.Ev("stall", uint64(h.id), uint64(s.stallUntil[h.id]-s.now))
+			for _, t := range s.ex.Live() {
+				if t.Host == h.id && t.State() == coro.Parked && !t.Dead {
+					s.ctx.Count("probe.stall_with_task_in_flight", 1)
+					break
+				}
+			}
 		}
 	}
 	n := len(s.hosts)
